@@ -31,4 +31,4 @@ done
 cp .work/evbak/*.json evidence/ 2>/dev/null; rm -rf .work/evbak; rm -f replays/*.json
 mkdir -p seeded/$OUT
 cp $SRC/patch.diff $SRC/demo.py seeded/$OUT/; cp $SRC/NOTES.md seeded/$OUT/ 2>/dev/null
-echo "$base_demo|$tests|$mut_demo|$RES" > seeded/$OUT/.last_run
+echo "$base_demo|$tests|$mut_demo|$RES|$(git -C /repo rev-parse --short HEAD)" > seeded/$OUT/.last_run
